@@ -68,6 +68,30 @@ Proof.
   - intros t li l Hl. unfold do_call. destruct (register_res (phase_s s) (e_started s) t) as [r [d|]]; [rewrite Hl|]; reflexivity.
 Qed.
 
+(* the client's own control calls: Dial / Enroll on a client that was never started (no event
+   loop registered) and on one that has been stopped are refused and change nothing; on a running
+   client they queue exactly one register task and wait for it; a further Client.Stop on a stopped
+   client is refused and changes nothing (in particular it closes no descriptor again) *)
+Theorem client_calls_follow_state : forall s g, get_user s g = Some UIdle -> c_client (e_cfg s) = true ->
+  (e_started s = false -> forall li,
+     estep_opt s (TU g) (CCall (KCliEnroll li false)) = Some (s, [(TU g, KRes REmpty)])) /\
+  (e_started s = true -> e_insd s = true -> forall li,
+     estep_opt s (TU g) (CCall (KCliEnroll li false)) = Some (s, [(TU g, KRes RInShutdown)])) /\
+  (e_started s = true -> e_insd s = false -> forall li l, get_loop s li = Some l ->
+     estep_opt s (TU g) (CCall (KCliEnroll li false)) =
+       Some (put_user (set_next (trigger s li (TReg (e_next s) (OUser g))) (e_next s + 1)) g (UEnrollWait false), [])) /\
+  (e_insd s = true -> estep_opt s (TU g) (CCall KCliStop) = Some (s, [(TU g, KRes RInShutdown)])) /\
+  (e_insd s = false -> estep_opt s (TU g) (CCall KCliStop) = None).
+Proof.
+  intros s g Hu Hc. cbn [estep_opt]. unfold ustep. rewrite Hu. unfold do_call. rewrite Hc. cbn [andb].
+  splits.
+  - intros Hs li. rewrite Hs. reflexivity.
+  - intros Hs Hi li. rewrite Hs, Hi. reflexivity.
+  - intros Hs Hi li l Hl. rewrite Hs, Hi, Hl. reflexivity.
+  - intros Hi. rewrite Hi. reflexivity.
+  - intros Hi. rewrite Hi. reflexivity.
+Qed.
+
 (* invalid arguments are rejected with the documented errors (on a running engine) *)
 Theorem invalid_args :
   (forall p, p = PRunning \/ p = PStopping -> register_res p true TgtNone = (RInvalidAddr, None)) /\
